@@ -3,10 +3,13 @@ import random
 
 STATES = {"str": ["q0", "q1", "q2", "q3"], "int": list(range(16)),
           "reserved": ["#STARTTOFINAL#", "#ENDTOFINAL#", "#STARTEMPTYS#", "#ENDEMPTYS#0"],
-          "tuple": [("p", 0), ("p", 1), (0, 0), (1,)], "mixed": [1, "1", 2, "2"]}
+          "tuple": [("p", 0), ("p", 1), (0, 0), (1,)], "mixed": [1, "1", 2, "2"],
+          # a bare fresh name of the library next to the same name with a numeric suffix (any numbering scheme of fresh names)
+          "reservednum": ["#STARTTOFINAL#", "#STARTTOFINAL#2", "#STARTTOFINAL#0", "#STARTTOFINAL#3"]}
 STACK = {"str": ["Z", "X", "Y", "W"], "int": [0, 1, 2, 3],
          "reserved": ["#BOTTOMTOFINAL#", "#BOTTOMEMPTYS#", "#BOTTOMEMPTYS#0", "#BOTTOMTOFINAL#0"],
-         "tuple": ["Z", "X", "Y", "W"], "mixed": [0, "0", 1, "1"]}
+         "tuple": ["Z", "X", "Y", "W"], "mixed": [0, "0", 1, "1"],
+         "reservednum": ["#BOTTOMTOFINAL#", "#BOTTOMTOFINAL#2", "#BOTTOMTOFINAL#0", "#BOTTOMTOFINAL#3"]}
 INPUTS = ["a", "b"]
 VCS = ["str", "str", "int", "reserved", "tuple", "inject", "mixed"]
 
